@@ -32,6 +32,14 @@ CHECKS.update({
     ),
 })
 
+CHECKS.update({
+    "C01": dict(
+        technique="property-based testing: round-trip oracle (dumps then parse) over generated definitions and values (parsed and directly constructed), negative class of out-of-range integers that must be rejected, exhaustive scalar boundary table",
+        text="generated-input search: round-trip of values obtained by parsing constructive/raw inputs and by direct construction, compared by canonical value, library ==, consumed bytes and size; every integer/enum/pointer leaf position is attacked with out-of-range neighbours which must raise; all integer types x endian x boundary values enumerated",
+        design_ref="DESIGN.md §4 C01",
+    ),
+})
+
 NOT_YET = {}
 
 
